@@ -1,4 +1,6 @@
 """C11 - redo never overwrites or deletes files it did not produce."""
+import os
+
 from .. import gen, histcheck
 from ..histrun import Anomaly, OVERRIDE_RE
 
@@ -40,12 +42,19 @@ def hook(hr, step, op, entry, anoms, ctx):
                 if hr._roles.get(n) != 'redo':
                     hr.stats['role_changes'] = hr.stats.get('role_changes', 0) + 1
                 hr._roles[n] = 'redo'
+            elif not os.path.lexists(hr.path(n)):
+                # a failed build that left no file: redo documents that the name goes back to being a possible source,
+                # so a file created by hand afterwards needs no override warning
+                hr._roles[n] = 'none'
+                hr._pending_warn.pop(n, None)
         r = hr.last_result
         text = (r.err or '') + (r.out or '')
         hr.stats['override_warnings_seen'] = hr.stats.get('override_warnings_seen', 0) + len(OVERRIDE_RE.findall(text))
         out = []
         for n in list(hr._pending_warn):
             if n in op[1] and n in p.user:
+                if entry.get('rc') != 0 and not OVERRIDE_RE.search(text):
+                    continue        # the command stopped at an earlier failure and may never have looked at n: judge the next one
                 del hr._pending_warn[n]
                 if not OVERRIDE_RE.search(text):
                     out.append(Anomaly(cls='warning-absent', key='override-warning-absent', what='%s was edited by hand after redo built it; %s printed no warning' % (n, entry['argv'])))
